@@ -62,8 +62,9 @@ ChkChange(e) ==
       wf(j) == InRange(m, e.parts[j]) /\ InRange(m2, e.parts2[j])
       sat(j) == Agrees(e.parts2[j], e.o2)
       \* the new particle: the new target's observations over the old particle's latents
-      ok(j) == wf(j) /\ sat(j) /\ e.parts2[j] = Overlay(e.parts[j], e.o2)
-      want(j) == 256 * (JointLP(m2, e.parts2[j]) - JointLP(m, e.parts[j]))
+      W  == Withdrawn(e.o, e.o2)          \* withdrawn observations are redrawn: any in-range value there
+      ok(j) == wf(j) /\ sat(j) /\ \A q \in (1..NS(m)) \ W : e.parts2[j][q] = Overlay(e.parts[j], e.o2)[q]
+      want(j) == 256 * (SumLP(m2, (1..NS(m2)) \ W, e.parts2[j]) - JointLP(m, e.parts[j]))
       sumlin == ISum(1..K, LAMBDA j : e.lw2lin[j])
   IN  {Fl("C26.constraints", IF Dropped(e.o, e.o2) # {} /\ e.parts2[j] = e.parts[j]
                                 THEN "stale_value_kept_at_newly_observed_address"
